@@ -82,6 +82,10 @@ fn main() {
             );
             0
         }
+        Some("digest") if args.len() >= 5 => match family(&args[2]) {
+            Some(f) => driver::digest(f, &args[2], args[3].parse().unwrap(), args[4].parse().unwrap()),
+            None => 2,
+        },
         Some("replay") if args.len() >= 3 => {
             let doc: serde_json::Value = std::fs::read(&args[2])
                 .ok()
